@@ -207,18 +207,18 @@ Lemma custom_resolution fR E m n : text_eqb m BUILTINS = false ->
   | _ => False
   end.
 Proof.
-  intros HM. unfold import_guard, import_effects, expected_class, present, resolution_prog.
+  intros HM. cbv zeta. unfold import_guard, import_effects, expected_class, present, resolution_prog.
   cbn [eval_cond run_prog in_modules eval_src getattr_ns after_import]. rewrite !(find_module_custom _ _ _ HM), HM.
   destruct (import_custom fR), (inst_custom fR); cbn [andb negb].
   - destruct (assoc m (modules E)) as [x|] eqn:EM; cbn [negb].
-    + split; [reflexivity|]. rewrite (find_module_custom _ _ _ HM), EM.
+    + split; [reflexivity|]. rewrite EM.
       destruct (assoc n x) as [[c ok|]|]; reflexivity.
     + split; [reflexivity|]. destruct (assoc m (importable E)) as [y|] eqn:EI.
-      * rewrite (find_module_custom _ _ _ HM). cbn [assoc]. rewrite text_eqb_refl.
+      * cbn [assoc]. rewrite text_eqb_refl.
         destruct (assoc n y) as [[c ok|]|]; reflexivity.
-      * rewrite (find_module_custom _ _ _ HM), EM. reflexivity.
+      * rewrite EM. reflexivity.
   - destruct (assoc m (modules E)); cbn [negb]; split; reflexivity.
-  - split; [reflexivity|]. rewrite (find_module_custom _ _ _ HM).
+  - split; [reflexivity|]. 
     destruct (assoc m (modules E)) as [x|]; [|reflexivity]. destruct (assoc n x) as [[c ok|]|]; reflexivity.
   - split; reflexivity.
 Qed.
@@ -399,10 +399,11 @@ Proof.
   rewrite (surjective_pairing (walk_dir _ _)), walk_dir_snd, walk_dir_fst. destruct (cls_key _) as [m n].
   cbn [dumpable forallb]. rewrite map_app, forallb_app, public_attrs_dumpable. cbn [map forallb attr_pair fst snd version_attr dumpable andb].
   rewrite andb_true_r.
+  assert (HA : forallb dumpable (map norm (e_args e)) = true).
+  { induction (e_args e) as [|o os IHo]; [reflexivity|]. cbn [map forallb]. rewrite norm_dumpable. exact IHo. }
   assert (H : forallb dumpable (flat_map (fun _ : text * option obj => map norm (e_args e))
                                   (filter (fun nv => text_eqb (fst nv) ARGS) (e_dir e))) = true).
-  { induction (filter _ (e_dir e)) as [|x l IH]; [reflexivity|]. cbn [flat_map]. rewrite forallb_app, IH, andb_true_r.
-    induction (e_args e) as [|o os IHo]; [reflexivity|]. cbn [map forallb]. now rewrite norm_dumpable. }
+  { induction (filter _ (e_dir e)) as [|x l IH]; [reflexivity|]. cbn [flat_map]. now rewrite forallb_app, IH, HA. }
   rewrite H. unfold tb_field. reflexivity.
 Qed.
 
